@@ -19,6 +19,14 @@ pcbasic/basic/inputs/keyboard.py:
   pointer forward by k slots (k <= waiting) discards the k oldest waiting keystrokes, a POKE that
   moves the tail pointer back by k slots discards the k newest.
 
+Function keys (soft keys): F1..F10 arrive as the two-byte keystroke NUL + CHR$(58+n) and occupy ONE
+slot like any other keystroke. When such a keystroke is taken from the buffer and KEY n has a
+non-empty text, the reader is handed that text instead, one character per INKEY$ (per character
+of INPUT$), before the next waiting keystroke; with an empty text (KEY n,"") the keystroke itself
+is delivered. Nothing is lost or repeated either way. The GW-BASIC default texts are in
+DEFAULT_MACROS. (The text in force when the key is read is used; the generators never redefine a
+key while it is waiting, nor POKE the pointers while an expansion is partly read.)
+
 A keystroke is the byte string INKEY$ returns for it: one character, or NUL + code for an
 extended key. The low byte of a slot holds the character; for an extended key the BIOS stores
 0 (83-key keyboards) or 0xE0 (enhanced keyboards) there - both are accepted.
@@ -33,6 +41,18 @@ SLOT_ADDR = 1054    # 0:041E
 LAST_ADDR = 1085    # 0:043D
 
 
+# GW-BASIC manual, KEY statement: initial soft key values
+DEFAULT_MACROS = {1: b'LIST ', 2: b'RUN\r', 3: b'LOAD"', 4: b'SAVE"', 5: b'CONT\r', 6: b',"LPT1:"\r',
+                  7: b'TRON\r', 8: b'TROFF\r', 9: b'KEY ', 10: b'SCREEN 0,0,0\r'}
+
+
+def fkey_number(k):
+    """1..10 for the keystroke of F1..F10, else None."""
+    if len(k) == 2 and k[0] == 0 and 0x3b <= k[1] <= 0x44:
+        return k[1] - 0x3a
+    return None
+
+
 def next_ptr(p, n=1):
     """Pointer value n slots after p on the ring."""
     return BASE + ((p - BASE) // 2 + n) % RING * 2
@@ -42,6 +62,10 @@ class Kbd(object):
 
     def __init__(self):
         self.fifo = []          # waiting keystrokes (bytes), oldest first
+        self.macros = dict(DEFAULT_MACROS)
+        self.expansion = []     # characters of a soft-key text still to be handed to the reader
+        self.expanded = 0       # function keys delivered as their text
+        self.unexpanded = 0     # function keys with an empty text delivered as themselves
         self.dropped = 0
         self.total = 0          # keystrokes accepted so far
         # pointer values are adopted from the first observation (the statement does not say
@@ -67,18 +91,47 @@ class Kbd(object):
 
     def read(self):
         """INKEY$."""
+        if self.expansion:
+            return self.expansion.pop(0)
         if not self.fifo:
             return b''
         if self.head is not None:
             self.head = next_ptr(self.head)
-        return self.fifo.pop(0)
+        k = self.fifo.pop(0)
+        n = fkey_number(k)
+        if n is not None:
+            text = self.macros.get(n, b'')
+            if text:
+                self.expanded += 1
+                self.expansion = [text[i:i + 1] for i in range(len(text))]
+                return self.expansion.pop(0)
+            self.unexpanded += 1
+        return k
+
+    def set_macro(self, n, text):
+        """KEY n, text."""
+        self.macros[n] = text
+
+    def stream(self):
+        """What successive reads will deliver from what is waiting now (list of byte strings)."""
+        out = list(self.expansion)
+        for k in self.fifo:
+            n = fkey_number(k)
+            text = self.macros.get(n, b'') if n is not None else b''
+            if text:
+                out.extend(text[i:i + 1] for i in range(len(text)))
+            else:
+                out.append(k)
+        return out
 
     def read_n(self, n):
-        """INPUT$(n) for n <= waiting; keystrokes must be single characters."""
+        """INPUT$(n) when the next n items of stream() are single characters."""
         return b''.join(self.read() for _ in range(n))
 
     def can_input(self):
         """INPUT is decidable by the model: an Enter is waiting and everything before it is plain text."""
+        if self.expansion:
+            return False
         for k in self.fifo:
             if k == b'\r':
                 return True
